@@ -894,6 +894,9 @@ class PythonPrimitiveToStoneDecoder:
                 raise bv.ValidationError("expected null, got value")
             return None
         else:
+            if isinstance(data_type, (bv.Integer, bv.Real)) and isinstance(val, bool):
+                # bool is a subclass of int in Python; in JSON it is a different kind of value
+                raise bv.ValidationError('expected number, got boolean')
             if validate:
                 if self.caller_permissions.permissions:
                     data_type.validate_with_permissions(val, self.caller_permissions)
